@@ -60,6 +60,8 @@ def shards(tier, seed):
             k = (seed + i) % len(mine)
             mine = (mine[k:] + mine[:k])[:3]
         out.append(dict(tier=tier, seed=seed * 1000 + i, idx=i, devs=mine, ncases=(40 if tier == "quick" else 300)))
+    for i in range(8 if tier == "quick" else 16):
+        out.append(dict(kind="core", tier=tier, seed=seed * 1000 + 500 + i, idx=i, ncfg=(1 if tier == "quick" else 4), ncases=(10 if tier == "quick" else 25)))
     return out
 
 
@@ -83,7 +85,36 @@ def diff_selftest(cfg, stim, col):
     col.diff_cycles += len(ta)
 
 
+def run_core_shard(sh):
+    """the same property through crossbar.get_port(...) on the whole core (controller + reference DRAM)"""
+    from lib import coremc
+    from lib.coreprop import draw_examples
+    col = Collector(ID)
+    violation = None
+    want = "conv" if sh["idx"] % 3 else "both"
+    for ci, cfg in enumerate(draw_examples(coremc.core_cfg(want), sh["ncfg"], sh["seed"])):
+        def t(stim, cfg=cfg):
+            r = coremc.run(cfg, stim)
+            fs = coremc.oracle(r, "C07")
+            kinds = sorted(set(coremc._kind(pc, 0) for pc in cfg["ports"]))
+            col.case(dict(cfg=cfg, stim=stim), classes=["core:" + k for k in kinds], nontrivial=True,
+                     sample=dict(whole_core=True, memtype=cfg["memtype"], ports=cfg["ports"], clocks=cfg.get("clocks"), ops_per_port=[len(o) for o in stim["ports"]], sys_cycles=r.cycles))
+            col.stats["simulated_core_cycles"] = col.stats.get("simulated_core_cycles", 0) + r.cycles
+            return col.filter(fs)
+        found = hyp_search(t, coremc.core_stim(cfg, 20 if sh["tier"] == "quick" else 40), sh["seed"] * 100 + ci, sh["ncases"], shrink=True)
+        if found:
+            stim, fs = found
+            fm = col.filter(coremc.oracle(coremc.run(cfg, stim, backend="migen"), "C07"))
+            if not any(f["clause"] == fs[0]["clause"] for f in fm):
+                raise HarnessError("C07 whole-core finding %s does not reproduce on migen.sim" % fs[0]["clause"])
+            violation = dict(case=dict(core=True, cfg=cfg, stim=stim), findings=fm, confirmed_on="migen.sim")
+            break
+    return col.result(violation)
+
+
 def run_shard(sh):
+    if sh.get("kind") == "core":
+        return run_core_shard(sh)
     col = Collector(ID)
     violation = None
     for di, cfg in enumerate(sh["devs"]):
@@ -113,5 +144,8 @@ def run_shard(sh):
 
 def replay(case):
     col = Collector(ID)
+    if case.get("core"):
+        from lib import coremc
+        return col.filter(coremc.oracle(coremc.run(case["cfg"], case["stim"], backend="migen"), "C07"))
     _, fm, _ = evaluate(case["cfg"], case["stim"], backend="migen")
     return col.filter(fm)
